@@ -398,7 +398,7 @@ def run_evo(c):
         st = es.init_state(to_tree(c["mean"], da), jax.random.PRNGKey(c["seed"] ^ 5))
     hl = HostLoss(c["kind"], d, c["lo"], c["hi"], random.Random(c["hseed"]), c["N"])
     tr = base.Identity.init()
-    clip = ([float(v) for v in onp.asarray(es.strategy_params.clip_min)], [float(v) for v in onp.asarray(es.strategy_params.clip_max)])
+    clip = tuple([float(v) for v in onp.broadcast_to(onp.asarray(getattr(es.strategy_params, k)), (d,))] for k in ("clip_min", "clip_max"))
     states = [dict(best=[float(v) for v in onp.asarray(st.best_member)], bl=float(st.best_fitness))]
     key = jax.random.PRNGKey(c["seed"])
     if c["mode"] == "step":
